@@ -221,6 +221,17 @@ func (p *c06) Init(tier string, seed int64) {
 			})
 		}
 	}
+	// long loops: the bookkeeping at and around passes 128, 256, 1000, 1024, 4096, and scopes 14 / 40 loops deep
+	for _, n := range []int{127, 128, 129, 255, 256, 257, 999, 1000, 1001, 1024, 1025, 4097} {
+		for kind := 0; kind < 3; kind++ {
+			n, kind := n, kind
+			p.enum = append(p.enum, func() (*Program, string) { return nil, fmt.Sprintf("for/long/%d/%d", kind, n) })
+		}
+	}
+	for _, d := range []int{8, 11, 12, 13, 14, 17, 33, 40} {
+		d := d
+		p.enum = append(p.enum, func() (*Program, string) { return nil, fmt.Sprintf("for/deep/%d", d) })
+	}
 	// --- loops: sequence kind x length x form ---
 	for _, sk := range c06SeqKinds() {
 		for n := 0; n <= sk.maxN; n++ {
@@ -534,6 +545,12 @@ func (p *c06) Run(i int) (res fw.Result) {
 		if _, sig := p.enum[i](); strings.HasPrefix(sig, "for/multi-entry/") {
 			p.runMultiEntry(&res, sig)
 			return
+		} else if strings.HasPrefix(sig, "for/long/") {
+			p.runLong(&res, sig)
+			return
+		} else if strings.HasPrefix(sig, "for/deep/") {
+			p.runDeep(&res, sig)
+			return
 		}
 	}
 	if i < len(p.enum) {
@@ -658,6 +675,139 @@ func (p *c06) runMultiEntry(res *fw.Result, sig string) {
 	}
 }
 
+// runLong: a loop of n passes over a range, a Go slice or an array literal variable; every pass prints its value
+// and the seven loop fields, and what each pass must print is written down here directly.
+func (p *c06) runLong(res *fw.Result, sig string) {
+	var kind, n int
+	fmt.Sscanf(strings.TrimPrefix(sig, "for/long/"), "%d/%d", &kind, &n)
+	ctx := map[string]interface{}{}
+	var seq gen.Expr = nm("xs")
+	switch kind {
+	case 0:
+		seq = &gen.EBin{Op: "..", L: num(1), R: num(n)}
+	case 1:
+		xs := make([]int, n)
+		for i := range xs {
+			xs[i] = i + 1
+		}
+		ctx["xs"] = xs
+	default:
+		xs := make([]stick.Value, n)
+		for i := range xs {
+			xs[i] = float64(i + 1)
+		}
+		ctx["xs"] = &xs
+	}
+	body := []gen.Node{pr(nm("v")), tx(";")}
+	for _, f := range loopMeta {
+		body = append(body, pr(attr(nm("loop"), f)), tx(","))
+	}
+	body = append(body, tx("|"))
+	prog := mkProg(ctx, &gen.NFor{Val: "v", Seq: seq, Body: body, HasElse: true, Else: []gen.Node{tx("EMPTY")}}, tx("after"))
+	pol, _ := layoutFor(sig)
+	lib := runLib(prog, pol, false)
+	res.UniqueNT = 1
+	res.AddObs("exec_steps", lib.exSteps)
+	res.AddClass("long-loop")
+	var want strings.Builder
+	b := func(x bool) string {
+		if x {
+			return "1"
+		}
+		return ""
+	}
+	for i := 0; i < n; i++ {
+		fmt.Fprintf(&want, "%d;%d,%d,%d,%d,%s,%s,%d,|", i+1, i+1, i, n-i, n-i-1, b(i == 0), b(i == n-1), n)
+	}
+	want.WriteString("after")
+	if lib.pan != nil || lib.err != nil || lib.out != want.String() {
+		at := 0
+		w := want.String()
+		for at < len(w) && at < len(lib.out) && w[at] == lib.out[at] {
+			at++
+		}
+		res.Fail("output", "c06:"+sig, fmt.Sprintf("loop of %d passes: error %v, panic %v; output differs from what the passes must print at byte %d: got %q, want %q", n, lib.err, lib.pan, at, clip(lib.out[minInt(at, len(lib.out)):], 80), clip(w[minInt(at, len(w)):], 80)), prog.describe())
+	}
+}
+
+func minInt(a, b int) int {
+	if a < b {
+		return a
+	}
+	return b
+}
+
+// runDeep: d loops inside each other (one pass each, the innermost three); the innermost body reads the loop
+// variable of every level and walks loop.parent up to the outermost loop.
+func (p *c06) runDeep(res *fw.Result, sig string) {
+	var d int
+	fmt.Sscanf(strings.TrimPrefix(sig, "for/deep/"), "%d", &d)
+	var inner []gen.Node
+	var want strings.Builder
+	for l := 0; l < d; l++ {
+		inner = append(inner, pr(nm(fmt.Sprintf("v%d", l))), tx("."))
+	}
+	up := gen.Expr(nm("loop"))
+	for l := d - 1; l >= 0; l-- {
+		inner = append(inner, pr(attr(up, "length")), tx(":"))
+		up = attr(up, "parent")
+	}
+	inner = append(inner, pr(nm("g")), tx("|"))
+	body := inner
+	for l := d - 1; l >= 0; l-- {
+		els := []gen.Expr{num(100 + l)}
+		if l == d-1 {
+			els = []gen.Expr{num(100 + l), num(200 + l), num(300 + l)}
+		} else if l%2 == 1 && d <= 17 {
+			els = append(els, num(500+l)) // a second pass: the scope of the first is gone, the outer ones are not
+		}
+		body = []gen.Node{&gen.NFor{Val: fmt.Sprintf("v%d", l), Seq: &gen.EArr{Els: els}, Body: append([]gen.Node{&gen.NSet{Name: fmt.Sprintf("s%d", l), X: num(l)}}, body...)}}
+	}
+	prog := mkProg(map[string]interface{}{"g": "G"}, append(body, tx("after"))...)
+	pol, _ := layoutFor(sig)
+	lib := runLib(prog, pol, false)
+	res.UniqueNT = 1
+	res.AddObs("exec_steps", lib.exSteps)
+	res.AddClass("deep-loop")
+	// expected: enumerate the passes outermost first
+	var rec func(l int, vals []int)
+	rec = func(l int, vals []int) {
+		if l == d {
+			for _, v := range vals {
+				fmt.Fprintf(&want, "%d.", v)
+			}
+			for k := d - 1; k >= 0; k-- {
+				ln := 1
+				if k == d-1 {
+					ln = 3
+				} else if k%2 == 1 && d <= 17 {
+					ln = 2
+				}
+				fmt.Fprintf(&want, "%d:", ln)
+			}
+			want.WriteString("G|")
+			return
+		}
+		els := []int{100 + l}
+		if l == d-1 {
+			els = []int{100 + l, 200 + l, 300 + l}
+		} else if l%2 == 1 && d <= 17 {
+			els = append(els, 500+l)
+		}
+		for _, e := range els {
+			rec(l+1, append(append([]int{}, vals...), e))
+		}
+	}
+	rec(0, nil)
+	want.WriteString("after")
+	switch {
+	case lib.pan != nil || lib.err != nil:
+		res.Fail("output", "c06:"+sig, fmt.Sprintf("%d loops deep: error %v, panic %v", d, lib.err, lib.pan), prog.describe())
+	case lib.out != want.String():
+		res.Fail("output", "c06:"+sig, fmt.Sprintf("%d loops deep: output %q, want %q", d, clip(lib.out, 200), clip(want.String(), 200)), prog.describe())
+	}
+}
+
 func (p *c06) Rule() string {
 	return "enumerated (exhaustive within the bound): every if-chain shape with <=3 elseif x optional else x every truth assignment; truthiness of each scalar class, and of 52 carriers of a condition value (negative and tiny numbers of every kind, NaN and infinities, decimals, strings like '0' and ' ', Stringer / Number / Boolean implementers, defined types, safe wrappers, containers, pointers) against the documented rule written out by hand, in if / not / ?: / for-if / elseif / and / or; every sequence kind (array literal, range, []int, []string, []Value, *[]int, [3]int, single-entry map, hash literal, nil, null, empty map) x length 0..8 x {value only, key+value, with else, nested in an outer loop with loop.parent, the outer loop's key and value read inside the inner loop} printing key, value and all seven loop fields at every position, with context variables named like every loop variable; inline-if loops for every element mask of length 1..5 and comparison conditions; non-iterables (numbers, strings, bools, structs - also the empty string, 0 and false, which are empty but no sequences) must be an error. Random: nestings of if/elseif/else and for (depth<=4) with boolean conditions from the expression region and loop fields printed at every depth. Oracle: reference model output and error-or-not. Loop fields are not printed inside inline-if bodies and the else-branch of a fully filtered non-empty loop is not exercised (stick and Twig differ there; the statement only promises which elements are rendered). Non-trivial: enumerated cases are distinct by construction; random ones need a loop nested in or containing another construct."
 }
@@ -667,5 +817,5 @@ func (p *c06) Assumptions() []string {
 }
 
 func (p *c06) Floors(tier string) map[string]int64 {
-	return map[string]int64{"exec_steps": 50000, "distinct_nontrivial": 500, "class:multi-entry-loop": 1, "class:truth-carrier": 40}
+	return map[string]int64{"exec_steps": 50000, "distinct_nontrivial": 500, "class:multi-entry-loop": 1, "class:long-loop": 30, "class:deep-loop": 8, "class:truth-carrier": 40}
 }
